@@ -47,6 +47,7 @@ def run(ctx):
     from .c06 import decoder_rule
     decoder_rule(ctx, "C05.8")
     stream_reset(ctx, "C05.9")
+    unget_position(ctx)
     r.rule("C05.1", "CR LF replacement precedes lone CR replacement on the same variable", floor=1)
     r.rule("C05.2", "carry-over stores are paired (buffer<->truncate, re-inject<->clear)", floor=2)
     r.rule("C05.3", "every non-empty read evaluates the trailing-CR / lead-surrogate test before normalisation", floor=2)
@@ -320,6 +321,31 @@ def stream_reset(ctx, rid="C05.9"):
                 "late <meta charset> triggers, the second pass starts with the first pass's value (line/column numbers of errors "
                 "point outside the input, a held-back character is replayed, ...)" % (attr, sorted(writers)),
                 {"attribute": attr}, detail={"attribute": attr, "writers": sorted(writers)})
+
+
+def unget_position(ctx):
+    """C05.10: position() = (lines, columns accumulated from the chunks already discarded) + position inside the current chunk.
+    readChunk adds a chunk's extent to the accumulated counters when it discards it; when unget() at offset 0 puts a
+    character *back in front of the new chunk*, that character has been counted already, so the prepend arm has to take it
+    out of the accumulated counters again -- otherwise every later position on the line is shifted by the number of
+    characters pushed back across a chunk boundary, i.e. error positions depend on the chunk size."""
+    r = ctx.r
+    r.rule("C05.10", "unget() at a chunk start compensates the accumulated line/column counters for the prepended character", floor=1)
+    ug = ctx.repo.func(REL, "HTMLUnicodeInputStream.unget")
+    cfg = CFG(ug.node)
+    pre = [x for x in cfg.stmt_nodes() if x.kind == "stmt" and isinstance(x.ast, ast.Assign) and norm(x.ast.targets[0]) == "self.chunk"
+           and "self.chunk" in norm(x.ast.value)]
+    if len(pre) != 1:
+        r.idiom("C05.10", False, "unget-prepend-compensates-position", ug.where, "unget(): the prepend statement was not found")
+        return
+    def adjusts(n):
+        return n.kind == "stmt" and isinstance(n.ast, (ast.Assign, ast.AugAssign)) and any(
+            a in norm(n.ast.targets[0] if isinstance(n.ast, ast.Assign) else n.ast.target) for a in ("prevNumCols", "prevNumLines"))
+    bad = cfg.must_follow(pre, adjusts) and cfg.must_precede(pre, adjusts)
+    r.check("C05.10", not bad, "unget-prepend-compensates-position", "%s:%d" % (REL, pre[0].ast.lineno),
+            "unget() prepends the character to the new chunk without taking it out of prevNumLines / prevNumCols, which already "
+            "count it: positions after a push-back across a chunk boundary are shifted (`<!doctyp><p>x` reports its errors at "
+            "column 2 with the default chunk size and at column 8 with a chunk size of 2)", detail={"compensated": not bad})
 
 
 def thorough(ctx):
